@@ -29,7 +29,7 @@ type LoopSpec struct {
 	Index   string // name for the implicit index of a range loop
 	Visited string // name for the visited set of a map range loop
 	List    string // name for the evaluated range expression
-	Frame   string // "entry": the automatic loop frame protects the objects that existed at function entry (default: at loop entry)
+	Frame   string // "entry": the automatic loop frame protects the objects that existed at function entry (default: at loop entry); "none": no automatic frame, written heap components are havoced for all objects
 	Invs    []*Clause
 	Line    int
 }
